@@ -48,7 +48,9 @@ TruncLens == {0, 4000, 4085, 4090, 4096, 4100, 20000}
 \* ---- context value shapes x skeletons -------------------------------------------------------------
 Shapes == {"nil", "true", "int0", "int5", "intneg", "float", "strempty", "str", "strnum", "listempty", "listmixed", "strs", "ints", "arr3",
            "mapany", "mss", "mis", "msl", "mapempty", "struct", "ptrstruct", "nilptrstruct", "embedded", "methods", "ptrptr", "nilslice",
-           "nilmap", "func", "chan", "time", "bytes", "err", "iface", "uint8", "int64", "float32", "nested"}
+           "nilmap", "func", "chan", "time", "bytes", "err", "iface", "uint8", "int64", "float32", "nested", "mixedrecv",
+           "biglist", "bigints", "maxint", "minint", "strregex", "strbracket", "strbackslash", "struni", "niltime", "nilstringer", "nilerr",
+           "mapiface", "uintmap", "listoflists", "float0", "floatbig", "nan"}
 V == Var("v")
 F0(f) == Filt(f, V, <<>>)
 Skeletons ==
@@ -83,7 +85,60 @@ Skeletons ==
     attrseq |-> <<PrintS(Attr(V, "nosuch")), PrintS(Attr(V, "X")), PrintS(Attr(V, "Name")), PrintS(Attr(V, "nosuch")), PrintS(Attr(V, "Y"))>>,
     hash |-> <<Set("h", Hash(<<LS(<<107>>)>>, <<V>>)), PrintS(Attr(Attr(Var("h"), "k"), "a"))>>, callv |-> <<PrintS(MCall("v", "a", <<>>))>> ]
 \* a loop over range(1, 2^40) is a finite but enormous computation the template itself asks for: not a hang of the engine
-ShapeCases == {[fam |-> "shape", sk |-> sk, sh |-> sh] : sk \in DOMAIN Skeletons, sh \in Shapes} \ {[fam |-> "shape", sk |-> "range", sh |-> "int64"]}
+HugeInts == {"int64", "maxint", "minint", "floatbig"}
+ShapeCases == {[fam |-> "shape", sk |-> sk, sh |-> sh] : sk \in DOMAIN Skeletons, sh \in Shapes} \ {[fam |-> "shape", sk |-> "range", sh |-> sh] : sh \in HugeInts}
+
+\* ---- every built-in filter, function and test with the value as subject and in every argument position -------
+FilterNames == {"default", "escape", "e", "upper", "lower", "trim", "raw", "length", "count", "join", "split", "date", "url_encode", "capitalize",
+                "title", "first", "last", "slice", "reverse", "sort", "keys", "merge", "replace", "striptags", "number_format", "abs", "round",
+                "nl2br", "format", "json_encode", "spaceless"}
+FunctionNames == {"range", "date", "random", "max", "min", "constant", "cycle", "include", "json_encode", "length", "merge"}   \* (dump writes to the process output)
+TestNames == {"defined", "empty", "null", "none", "even", "odd", "iterable", "same_as", "divisible_by", "constant", "equalto", "sameas",
+              "starts_with", "ends_with", "matches", "in"}
+sAB == LS(<<97, 44, 98>>)          \* 'a,b'
+L123 == Arr(<<LI(1), LI(2), LI(3)>>)
+FilterForms == {"f0", "f1", "f1s", "f1l", "f2", "f2s", "f2l", "f3s"}
+FunctionForms == {"g0", "g1", "g2", "g2a", "g2n", "g3", "g3l"}
+TestForms == {"t0", "t1", "t1s", "t1l"}
+GenBody(form, n) ==
+    CASE form = "f0"  -> <<PrintS(Filt(n, V, <<>>))>>
+      [] form = "f1"  -> <<PrintS(Filt(n, V, <<V>>))>>
+      [] form = "f1s" -> <<PrintS(Filt(n, sAB, <<V>>))>>
+      [] form = "f1l" -> <<PrintS(Filt(n, L123, <<V>>))>>
+      [] form = "f2"  -> <<PrintS(Filt(n, V, <<V, V>>))>>
+      [] form = "f2s" -> <<PrintS(Filt(n, sAB, <<LI(1), V>>))>>
+      [] form = "f2l" -> <<PrintS(Filt(n, L123, <<LI(1), V>>))>>
+      [] form = "f3s" -> <<PrintS(Filt(n, sAB, <<LS(<<97>>), V, V>>))>>
+      [] form = "g0"  -> <<PrintS(Call(n, <<>>))>>
+      [] form = "g1"  -> <<PrintS(Call(n, <<V>>))>>
+      [] form = "g2"  -> <<PrintS(Call(n, <<V, V>>))>>
+      [] form = "g2a" -> <<PrintS(Call(n, <<LI(1), V>>))>>
+      [] form = "g2n" -> <<PrintS(Call(n, <<Un("-", V), V>>))>>
+      [] form = "g3"  -> <<PrintS(Call(n, <<LI(1), LI(5), V>>))>>
+      [] form = "g3l" -> <<PrintS(Call(n, <<L123, V>>))>>
+      [] form = "t0"  -> <<PrintS(Cond(Test(V, n, <<>>, FALSE), LI(1), LI(2)))>>
+      [] form = "t1"  -> <<PrintS(Cond(Test(V, n, <<V>>, FALSE), LI(1), LI(2)))>>
+      [] form = "t1s" -> <<PrintS(Cond(Test(sAB, n, <<V>>, FALSE), LI(1), LI(2)))>>
+      [] form = "t1l" -> <<PrintS(Cond(Test(L123, n, <<V>>, TRUE), LI(1), LI(2)))>>
+\* range over a span of 2^63 values is the template's own request (see above); so is a cycle / merge of such a range
+HugeLoop(c) == c.n = "range" /\ c.sh \in HugeInts
+GenCases == {c \in ({[fam |-> "gen", form |-> fo, n |-> n, sh |-> sh] : fo \in FilterForms, n \in FilterNames, sh \in Shapes}
+                    \cup {[fam |-> "gen", form |-> fo, n |-> n, sh |-> sh] : fo \in FunctionForms, n \in FunctionNames, sh \in Shapes}
+                    \cup {[fam |-> "gen", form |-> fo, n |-> n, sh |-> sh] : fo \in TestForms, n \in TestNames, sh \in Shapes}) : ~HugeLoop(c)}
+
+\* ---- identifiers whose lower case has another encoded length, keywords and odd names in every name position ----
+Idents == [ stroke |-> <<570, 570, 570, 570>>, doti |-> <<304, 304, 304>>, kelvin |-> <<8490, 8490>>, sharp |-> <<7838, 97>>, acute |-> <<233, 233>>,
+            kwin |-> <<105, 110>>, kwif |-> <<105, 102>>, kwwith |-> <<119, 105, 116, 104>>, kwas |-> <<97, 115>>, digit |-> <<49, 97>>, dash |-> <<97, 45, 98>>,
+            long |-> [i \in 1..300 |-> 97 + (i % 26)], empty |-> <<>>, upper |-> <<73, 78>>, cjk |-> <<20013, 25991>>, astral |-> <<128512, 120>> ]
+\* %I marks the identifier slot
+IdentForms == [ forv |-> "{% for %I in x %}{{ %I }}{% endfor %}", forkv |-> "{% for k, %I in x %}{{ %I }}{% endfor %}", forseq |-> "{% for i in %I %}a{% endfor %}",
+                setv |-> "{% set %I = 1 %}{{ %I }}", inc |-> "{% include %I %}", incwith |-> "{% include %I with x %}", incwithv |-> "{% include 't1' with %I %}",
+                incwithk |-> "{% include 't1' with {'%I': 1} %}", ext |-> "{% extends %I %}", imp |-> "{% import %I as %I %}", impas |-> "{% import 't1' as %I %}",
+                fromi |-> "{% from %I import %I %}", fromas |-> "{% from 't1' import m as %I %}", mac |-> "{% macro %I(%I) %}{{ %I }}{% endmacro %}",
+                blk |-> "{% block %I %}b{% endblock %}", pr |-> "{{ %I }}", attr |-> "{{ x.%I }}", filt |-> "{{ x|%I }}", fn |-> "{{ %I(1) }}",
+                tst |-> "{% if x is %I %}a{% endif %}", app |-> "{% apply %I %}a{% endapply %}", str |-> "{{ '%I' ~ \"%I\" }}", hashk |-> "{{ {%I: 1}|length }}",
+                named |-> "{{ max(%I=1) }}", ifin |-> "{% if %I in x %}a{% endif %}", tern |-> "{{ %I ? %I : %I }}" ]
+IdentCases == {[fam |-> "ident", f |-> f, id |-> id] : f \in DOMAIN IdentForms, id \in DOMAIN Idents}
 
 \* ---- corruptions of compiled-template encodings -----------------------------------------------------
 ValidRecs == { [name |-> <<116>>, source |-> <<97, 123, 123, 32, 120, 32, 125, 125>>, lm |-> <<1, 0, 0, 0, 0, 0, 0, 0>>, ct |-> <<2, 0, 0, 0, 0, 0, 0, 0>>, ast |-> <<>>],
@@ -117,6 +172,15 @@ CaseOf(c) ==
             runs |-> {[label |-> "shape", tp |-> ("main" :> Source(Skeletons[c.sk], LMin)) @@ ("t1" :> Source(<<PrintS(Var("a"))>>, LMin))
                                                @@ ("a" :> Source(Lib, LMin)) @@ ("12" :> Source(Lib, LMin)),
                        xcalls |-> [id \in {} |-> 0], probe |-> TRUE]}, expect |-> AnyExpect]
+      [] c.fam = "gen" ->
+           [prop |-> "C05", key |-> ToJson(c), tags |-> {"fam:gen", "form:" \o c.form, "n:" \o c.n, "sh:" \o c.sh}, entry |-> "main",
+            ctx |-> ("v" :> [t |-> "shape", kind |-> c.sh]),
+            runs |-> {[label |-> "gen", tp |-> ("main" :> Source(GenBody(c.form, c.n), LMin)) @@ ("a" :> Source(Lib, LMin)) @@ ("12" :> Source(Lib, LMin)),
+                       xcalls |-> [id \in {} |-> 0], probe |-> TRUE]}, expect |-> AnyExpect]
+      [] c.fam = "ident" ->
+           [prop |-> "C05", key |-> ToJson(c), tags |-> {"fam:ident", "f:" \o c.f, "id:" \o c.id}, entry |-> "main", ctx |-> ("x" :> VL(<<VI(1), VI(2)>>)),
+            runs |-> {[label |-> "ident", tp |-> ("main" :> <<[subst |-> IdentForms[c.f], with |-> Idents[c.id]]>>) @@ ("t1" :> Source(Lib, LMin)),
+                       xcalls |-> [id \in {} |-> 0], probe |-> TRUE]}, expect |-> AnyExpect]
       [] c.fam = "dec" ->
            [prop |-> "C05", key |-> ToJson(c), tags |-> {"fam:dec", "kind:" \o c.kind}, entry |-> "main", ctx |-> EmptyFn,
             runs |-> {[label |-> "dec", tp |-> ("main" :> <<>>), xcalls |-> [id \in {} |-> 0], probe |-> TRUE, decode |-> c.bytes]}, expect |-> AnyExpect]
@@ -125,10 +189,13 @@ Fams == {"tok", "shape", "dec"}
 \* partitions (expanded in parallel by TLC's workers; also keeps every set below TLC's size limit)
 Init == cs \in {[part |-> "tok", o |-> o, c |-> c, tl |-> tl] : o \in Opens, c \in Closes, tl \in Tails}
              \cup {[part |-> "shape", o |-> "", c |-> "", tl |-> ""], [part |-> "dec", o |-> "", c |-> "", tl |-> ""],
-                   [part |-> "trunc", o |-> "", c |-> "", tl |-> ""]}
+                   [part |-> "trunc", o |-> "", c |-> "", tl |-> ""], [part |-> "ident", o |-> "", c |-> "", tl |-> ""]}
+             \cup {[part |-> "gen", o |-> fo, c |-> "", tl |-> ""] : fo \in FilterForms \cup FunctionForms \cup TestForms}
 Next == "part" \in DOMAIN cs /\
         cs' \in (CASE cs.part = "tok" -> {c \in TokCasesOf(cs.o, cs.c, cs.tl) : TokRelevant(c)}
                    [] cs.part = "shape" -> ShapeCases
+                   [] cs.part = "gen" -> {c \in GenCases : c.form = cs.o}
+                   [] cs.part = "ident" -> IdentCases
                    [] cs.part = "trunc" -> TruncCases
                    [] cs.part = "dec" -> DecCases)
 Spec == Init /\ [][Next]_cs
